@@ -161,6 +161,11 @@ pub fn check_text(ctx: &Ctx, text: &str, stream: &str, stats: &mut Stats) -> Res
 
 /// Pattern-row programs of C04 (accepted ones run every enumerated value) as a text stream.
 pub fn pattern_program(ctx: &Ctx, tape: &[u8]) -> Option<String> {
+    pattern_program_with_form(ctx, tape).map(|x| x.0)
+}
+
+/// (program, is the row list rendered as a `match`?)
+pub fn pattern_program_with_form(ctx: &Ctx, tape: &[u8]) -> Option<(String, bool)> {
     use crate::props::c04;
     let (w, types) = c04::catalogue();
     let (_tname, ty, rows, form) = c04::random_case(&w, &types, tape);
@@ -175,7 +180,7 @@ pub fn pattern_program(ctx: &Ctx, tape: &[u8]) -> Option<String> {
     if values.is_empty() {
         return None;
     }
-    Some(c04::run_program_text(ctx, &w, &ty, &rows, form, &values).0)
+    Some((c04::run_program_text(ctx, &w, &ty, &rows, form, &values).0, form == c04::Form::Match))
 }
 
 pub fn run(ctx: &Ctx) -> Report {
